@@ -745,9 +745,9 @@ def rule_f(ctx):
 
 
 def run(ctx):
-    rule_f(ctx)
-    rule_a(ctx)
-    rule_b(ctx)
-    rule_c(ctx)
-    rule_d(ctx)
-    rule_e(ctx)
+    ctx.guard(rule_f, ctx)
+    ctx.guard(rule_a, ctx)
+    ctx.guard(rule_b, ctx)
+    ctx.guard(rule_c, ctx)
+    ctx.guard(rule_d, ctx)
+    ctx.guard(rule_e, ctx)
